@@ -101,9 +101,11 @@ func (em *emitter) emitNodes(nodes []ast.Node) {
 			currentBreakable := em.breakable
 			currentBreakLabel := em.breakLabel
 			currentBreakStmt, currentLoopStmt := em.breakStmt, em.loopStmt
+			currentInForRange := em.inForRange
 			em.breakable = true
 			em.breakLabel = nil
 			em.breakStmt, em.loopStmt = node, node
+			em.inForRange = false
 			em.fb.enterScope()
 			if node.Init != nil {
 				em.emitNodes([]ast.Node{node.Init})
@@ -128,8 +130,11 @@ func (em *emitter) emitNodes(nodes []ast.Node) {
 				forLabel := em.fb.newLabel()
 				em.fb.setLabelAddr(forLabel)
 				endForLabel := em.fb.newLabel()
-				em.rangeLabels = append(em.rangeLabels, forLabel)
+				forPost := em.fb.newLabel()
+				em.rangeLabels = append(em.rangeLabels, forPost)
 				em.emitNodes(node.Body)
+				em.rangeLabels = em.rangeLabels[:len(em.rangeLabels)-1]
+				em.fb.setLabelAddr(forPost)
 				if node.Post != nil {
 					em.emitNodes([]ast.Node{node.Post})
 				}
@@ -143,6 +148,7 @@ func (em *emitter) emitNodes(nodes []ast.Node) {
 			em.breakable = currentBreakable
 			em.breakLabel = currentBreakLabel
 			em.breakStmt, em.loopStmt = currentBreakStmt, currentLoopStmt
+			em.inForRange = currentInForRange
 
 		case *ast.ForRange:
 			em.emitForRange(node)
@@ -283,6 +289,9 @@ func (em *emitter) emitNodes(nodes []ast.Node) {
 			em.breakLabel = nil
 			em.breakStmt = node
 			em.emitSelect(node)
+			if em.breakLabel != nil {
+				em.fb.setLabelAddr(*em.breakLabel)
+			}
 			em.breakable = currentBreakable
 			em.breakLabel = currentBreakLabel
 			em.breakStmt = currentBreakStmt
@@ -1062,6 +1071,8 @@ func (em *emitter) emitForRange(node *ast.ForRange) {
 
 	inForRange := em.inForRange
 	em.inForRange = true
+	breakable := em.breakable
+	em.breakable = false
 	currentBreakStmt, currentLoopStmt := em.breakStmt, em.loopStmt
 	em.breakStmt, em.loopStmt = node, node
 
@@ -1141,6 +1152,7 @@ func (em *emitter) emitForRange(node *ast.ForRange) {
 	em.fb.exitScope()
 	em.fb.exitScope()
 	em.inForRange = inForRange
+	em.breakable = breakable
 	em.breakStmt, em.loopStmt = currentBreakStmt, currentLoopStmt
 
 	if node.Else != nil {
